@@ -20,8 +20,9 @@ RULE = ("(i) grid geometry through the real GridSearch.fit with an exact learner
         "records the relabelled targets/weights it was given (y = 1[w>0], weights proportional to |w|). non-trivial = always")
 ASSUMPTIONS = ["hypothesis class = all functions of one discrete feature; exact learners in mc/stubs.py",
                "for BoundedGroupLoss the best-response statement is 'minimises lambda.gamma' (the objective lies in the span of the group losses)"]
-CLASSES = ["ratio_bound_selection", "geometry", "missing_event_group_pair", "four_groups", "bgl_geometry", "faithfulness", "bgl_faithfulness", "relabel_observed",
-           "tie_in_selection"]
+CLASSES = ["ratio_bound_selection", "geometry", "missing_event_group_pair", "four_groups", "bgl_geometry", "faithfulness", "bgl_faithfulness"]
+# classes whose occurrence depends on implementation internals (reported, warned about when absent, never a hard vacuity error)
+SOFT_CLASSES = ["tie_in_selection", "relabel_observed"]
 
 GEOM_X = [0, 1, 0, 1, 0, 1, 1, 0, 2, 2, 1, 0]
 GEOM_Y = [0, 1, 1, 0, 1, 0, 1, 0, 1, 0, 0, 1]
